@@ -388,7 +388,7 @@ Proof.
     destruct (opt_map _ states) as [cs'|] eqn:Ecs'; [|discriminate]. injection Ecs as <-.
     assert (Hk : in_rangeb (shape_of reg) k = true) by (apply (Hrep s k); [left; reflexivity|exact Ek]).
     cbn [fsm_active_body fst snd]. rewrite Ek.
-    unfold int_case_patterns. rewrite Hk. cbn [case_sem existsb fst snd].
+    unfold Dsl.int_case_patterns. rewrite Hk. cbn [case_sem existsb fst snd].
     apply in_rangeb_spec in Hk. unfold in_range in Hk. rewrite Hsg in Hk. fold (ewidth reg) in Hk.
     destruct (bin_pattern_sem (ewidth reg) k v Hw Hk Hr) as [Hp _]. rewrite Hp, orb_false_r.
     destruct (v =? k).
